@@ -347,7 +347,7 @@ func runC19(r *fw.Runner) {
 	// applied, so that no document results), as request and as the initial state of a long-form DID: through every entry point
 	for _, typ := range []byte("curd") {
 		typ := typ
-		for _, fc := range classesFor(typ) {
+		for _, fc := range append([]failClass{{name: "valid"}, {name: "valid"}, {name: "valid"}}, classesFor(typ)...) {
 			fc := fc
 			r.Case("failure-class-"+typeName(typ), func(c *fw.Case) {
 				e := get(c)
@@ -371,6 +371,11 @@ func runC19(r *fw.Runner) {
 					e.feedBytes(c, "did-with-class:"+fc.name, []byte(did))
 					c19Call(c, "Applier.Apply", "class:"+fc.name, s.Built.Request, func() { st.Applier.Apply(anchoredOf(s, s.Built.Suffix), e.state) })
 					c19Call(c, "Applier.Apply", "class:"+fc.name, s.Built.Request, func() { st.Applier.Apply(anchoredOf(s, s.Built.Suffix), &protocol.ResolutionModel{}) })
+					// previous states whose anchor origin is an object / a list / a number (any JSON value is a legal anchor origin)
+					for _, ao := range []interface{}{map[string]interface{}{"domain": "origin.example", "n": 1}, []interface{}{"a", map[string]interface{}{"b": 1}}, 7.0, ""} {
+						prev := &protocol.ResolutionModel{Doc: e.state.Doc, UpdateCommitment: "x", RecoveryCommitment: "y", AnchorOrigin: ao}
+						c19Call(c, "Applier.Apply", "class:"+fc.name+"/state-with-structured-anchor-origin", s.Built.Request, func() { st.Applier.Apply(anchoredOf(s, s.Built.Suffix), prev) })
+					}
 				}
 			})
 		}
